@@ -30,7 +30,7 @@ inline Plan Gen(uint64_t seed)
    const int eol = (int) cfg.below(3);
    static const uint32_t tss[] = {0, 0, 0, 1, 3, 50};
    const uint32_t ts = tss[cfg.below(6)];
-   p.push_back("cfg prop=C03 gw=" + std::string(kGwNames[gw]) + " enc=" + I(enc) + " lru=" + U(lru) + " eol=" + I(eol) + " minchunk=" + U(minchunk) + " ts=" + U(ts));
+   p.push_back("cfg prop=C03 gw=" + std::string(kGwNames[gw]) + " enc=" + I(enc) + " lru=" + U(lru) + " eol=" + I(eol) + " minchunk=" + U(minchunk) + " ts=" + U(ts) + " telnet=" + I(cfg.below(2)));
    const int faultCls = cfg.oneIn(6) ? 0 : -1;   // one run in six is fault-free (whole-buffer I/O)
    static const char * dirs[] = {"sw", "rr", "rw", "sr"};
    for (const char * d : dirs) p.push_back(std::string("chunks ") + d + " " + SchedToStr(GenChunkSchedule(fl, faultCls)));
@@ -58,7 +58,7 @@ inline Plan Gen(uint64_t seed)
                   static const int bias[4][8] = {{0,0,0,1,1,5,5,2}, {0,1,1,1,2,4,5,5}, {1,1,2,2,3,4,5,5}, {0,1,2,3,3,4,5,2}};
                   cls = bias[sizeBias][wl.below(8)];
                }
-               p.push_back("msg " + U(gs) + " " + I(cls));
+               p.push_back(std::string(((gw == GW_WS)&&(wl.oneIn(4))) ? "rmsg " : "msg ") + U(gs) + " " + I(cls));
             }
             queued++;
          }
@@ -86,6 +86,7 @@ struct Harness
    SimDataIO * sio, * rio;
    QueueGatewayMessageReceiver rq, sq;
    std::vector<std::string> sent, got;          // units
+   std::vector<std::string> sentBack, gotBack;  // duplex protocols (WebSocket pair): Messages the receiving side sends the other way
    uint64_t sentBytes;
    RunResult & res; TraceHash th;
 
@@ -101,7 +102,8 @@ struct Harness
          case GW_TEXT:
          {
             PlainTextMessageIOGateway * s = new PlainTextMessageIOGateway; static const char * eols[] = {"\r\n", "\n", "\r"};
-            s->SetOutgoingEndOfLineString(eols[cfg.i("eol", 0) % 3]); S.SetRef(s); R.SetRef(new PlainTextMessageIOGateway);
+            s->SetOutgoingEndOfLineString(eols[cfg.i("eol", 0) % 3]); S.SetRef(s);
+            if (cfg.i("telnet", 0)) R.SetRef(new TelnetPlainTextMessageIOGateway); else R.SetRef(new PlainTextMessageIOGateway);   // (the telnet variant strips IAC sequences; generated lines contain no 0xFF byte)
          }
          break;
          case GW_RAW:  S.SetRef(new RawDataMessageIOGateway); R.SetRef(new RawDataMessageIOGateway((uint32) cfg.i("minchunk", 0))); break;
@@ -170,7 +172,7 @@ struct Harness
          if (got[i] != sent[i]) Fail("unit_differs", std::string(when) + ": unit " + U(i) + " differs (sent " + U(sent[i].size()) + " bytes, got " + U(got[i].size()) + " bytes)");
       _checked = got.size();
    }
-   size_t _checked = 0, _rawChecked = 0;
+   size_t _checked = 0, _rawChecked = 0, _checkedBack = 0;
 
    void DoOut(uint32 maxBytes)
    {
@@ -221,7 +223,10 @@ struct Harness
          const io_status_t r1 = R()->DoOutput(); if (r1.IsError()) Fail("receiver_error", std::string("receiver DoOutput returned ") + r1.GetStatus()());
          const io_status_t r2 = S()->DoInput(sq);  if (r2.IsError()) Fail("sender_error", std::string("sender DoInput returned ") + r2.GetStatus()());
          th.u((uint64_t) r1.GetByteCount()); th.u((uint64_t) r2.GetByteCount());
-         if (sq.GetMessages().HasItems()) Fail("spurious_message", "the sending side received a Message although the receiver never sent one");
+         MessageRef bm; while(sq.GetMessages().RemoveHead(bm).IsOK()) {gotBack.push_back(Flat(bm)); res.stats.inc("msgs_delivered_reverse");}
+         if (gotBack.size() > sentBack.size()) Fail("spurious_message", "the sending side received " + U(gotBack.size()) + " Messages although the other side sent only " + U(sentBack.size()));
+         for (size_t i=_checkedBack; i<gotBack.size(); i++) if (gotBack[i] != sentBack[i]) Fail("reverse_unit_differs", "reverse direction: Message " + U(i) + " differs (sent " + U(sentBack[i].size()) + " bytes, got " + U(gotBack[i].size()) + " bytes)");
+         _checkedBack = gotBack.size();
       }
    }
    void Enqueue(const MessageRef & m)
@@ -260,7 +265,7 @@ struct Harness
          const uint32 mc = (uint32) cfg.i("minchunk", 0);
          return (mc > 0) ? ((s - g) < mc) : (s == g);   // min-chunk mode withholds a final partial chunk by design
       }
-      return got.size() == sent.size();
+      return (got.size() == sent.size())&&(gotBack.size() == sentBack.size());
    }
 };
 
@@ -286,6 +291,7 @@ inline void Exec(const Plan & plan, RunResult & res)
          else if (t[1] == "sr") h.b2a.SetSched(false, v);
       }
       else if ((t[0] == "msg")&&(t.size() >= 3)) h.Enqueue(GenMessage(ToU(t[1]), (int) ToI(t[2])));
+      else if ((t[0] == "rmsg")&&(t.size() >= 3)&&(h.gw == GW_WS)&&(h.R())) {MessageRef m = GenMessage(ToU(t[1]), (int) ToI(t[2])); h.sentBack.push_back(Flat(m)); if (h.R()->AddOutgoingMessage(m).IsError()) Fail("harness", "AddOutgoingMessage failed"); h.res.stats.inc("msgs_sent_reverse");}
       else if ((t[0] == "text")&&(t.size() >= 3))
       {
          Rng r(ToU(t[1]), "text"); MessageRef m = GetMessageFromPool(PR_COMMAND_TEXT_STRINGS);
@@ -293,7 +299,8 @@ inline void Exec(const Plan & plan, RunResult & res)
          for (int i=0; i<nl; i++)
          {
             String l; const uint32 len = r.oneIn(5) ? 0 : (r.oneIn(6) ? (2030 + r.below(40)) : r.below(30));
-            for (uint32 k=0; k<len; k++) l += (char)(r.oneIn(12) ? (0x80 + r.below(0x70)) : (' ' + r.below(95)));
+            const bool sevenBit = (h.cfg.i("telnet", 0) != 0);   // the telnet variant documents that it strips every byte with the high bit set
+            for (uint32 k=0; k<len; k++) l += (char)(((!sevenBit)&&(r.oneIn(12))) ? (0x80 + r.below(0x70)) : (' ' + r.below(95)));
             (void) m()->AddString(PR_NAME_TEXT_LINE, l);
          }
          h.Enqueue(m);
@@ -344,6 +351,7 @@ inline void Exec(const Plan & plan, RunResult & res)
       size_t s = (h.gw == GW_RAW) ? (h.sent.empty() ? 0 : h.sent[0].size()) : h.sent.size(), g = (h.gw == GW_RAW) ? (h.got.empty() ? 0 : h.got[0].size()) : h.got.size();
       Fail("lost_units", "after a fault-free drain of " + I(bound) + " rounds only " + U(g) + " of " + U(s) + " units arrived (sender idle=" + I(h.SenderIdle()) + ", in flight=" + U(h.a2b.q.size()) + " bytes)");
    }
+   if (h.gotBack.size() != h.sentBack.size()) Fail("lost_units", "reverse direction: " + U(h.gotBack.size()) + " of " + U(h.sentBack.size()) + " Messages arrived");
    if (h.SenderIdle() == false) Fail("sender_not_idle", "everything was delivered but the sender still reports bytes to output");
    WatchdogDisarm();
 
